@@ -481,3 +481,14 @@ func (w *World) structureObls(prop string) []*Obligation {
 
 // ownersProp: the property the ownership discipline belongs to (C11).
 func ownersProp(w *World) string { return "C11" }
+
+// uncovered: functions of the package that have no contract at all.
+func (w *World) uncovered() []string {
+	var out []string
+	for _, fn := range w.packageFuncs() {
+		if w.db.Funcs[fnKey(fn)] == nil {
+			out = append(out, fnKey(fn))
+		}
+	}
+	return out
+}
